@@ -28,10 +28,13 @@ type mparam struct {
 	t                        typ
 	s                        string
 	i                        int
-	v                        []vec3 // tV
-	rc                       Rec    // tR
-	applied                  bool   // an accepted message has been applied (composite sources)
-	changedSoft, changedHard int    // soft = any update call, hard = update to a different value
+	v                        []vec3         // tV
+	rc                       Rec            // tR
+	f                        float64        // tF
+	fs                       []float64      // tFs
+	mp                       map[string]int // tM
+	applied                  bool           // an accepted message has been applied (composite sources)
+	changedSoft, changedHard int            // soft = any update call, hard = update to a different value
 }
 
 type model struct {
@@ -126,6 +129,22 @@ func (m *model) eval(i int) val {
 			return val{s: fVFmt(i, true, m.params[r.idx].v)}
 		}
 		return val{s: fVFmt(i, false, nil)}
+	case kFBits:
+		return val{s: fFBits(i, m.floatOf(n.named[0]))}
+	case kFInv:
+		return val{s: fFInv(i, m.floatOf(n.named[0]))}
+	case kFAtan:
+		return val{s: fFAtan(i, m.floatOf(n.named[0]), m.floatOf(n.named[1]))}
+	case kFsFmt:
+		if r := n.named[0]; r != nil {
+			return val{s: fFsFmt(i, true, m.params[r.idx].fs)}
+		}
+		return val{s: fFsFmt(i, false, nil)}
+	case kMFmt:
+		if r := n.named[0]; r != nil {
+			return val{s: fMFmt(i, true, m.params[r.idx].mp)}
+		}
+		return val{s: fMFmt(i, false, nil)}
 	case kRFmt:
 		if r := n.named[0]; r != nil {
 			return val{s: fRFmt(i, true, m.params[r.idx].rc)}
@@ -140,6 +159,13 @@ func (m *model) eval(i int) val {
 		return val{s: fUntil(i, -1, len(n.arr))}
 	}
 	panic("unknown kind")
+}
+
+func (m *model) floatOf(r *ref) float64 {
+	if r == nil {
+		return nilF
+	}
+	return m.params[r.idx].f
 }
 
 // failed: does a from-scratch evaluation of node i end in an error of its own processor?
@@ -333,6 +359,12 @@ func (m *model) describe() string {
 			fmt.Fprintf(&sb, "p%d=%d ", i, p.i)
 		case tV:
 			fmt.Fprintf(&sb, "p%d=%s ", i, fVFmt(0, true, p.v))
+		case tF:
+			fmt.Fprintf(&sb, "p%d=%s ", i, showF(p.f))
+		case tFs:
+			fmt.Fprintf(&sb, "p%d=%s ", i, showFs(p.fs))
+		case tM:
+			fmt.Fprintf(&sb, "p%d=%s ", i, fMFmt(0, true, p.mp))
 		default:
 			fmt.Fprintf(&sb, "p%d=%s ", i, fRFmt(0, true, p.rc))
 		}
